@@ -509,3 +509,63 @@ Proof. vm_compute. split; reflexivity. Qed.
 Lemma wsout_unbuffered_same_events :
   map (map fst) (wframes (wrun (fun k => [N.of_nat k]) 0 glue_events)) = [[0]].
 Proof. vm_compute. reflexivity. Qed.
+
+(* ================================================================== reconnecting destination *)
+
+Lemma chain_remove a : forall x b lo hi, chain lo (a ++ x :: b) hi -> chain lo (a ++ b) hi.
+Proof.
+  induction a as [|y a IH]; intros x b lo hi H; cbn [app chain] in *.
+  - destruct H as [H1 H2]. clear -H1 H2. revert lo x H1 H2.
+    induction b as [|z b IHb]; intros lo x H1 H2; cbn [chain] in *; [lia|].
+    destruct H2 as [H2 H3]. split; [lia|exact H3].
+  - destruct H as [H1 H2]. split; [exact H1|eapply IH; exact H2].
+Qed.
+
+Section DestOutProofs.
+  Variable msg_at : nat -> bytes.
+  Variable dcap : nat.
+  Notation dstep := (dstep msg_at dcap).
+  Notation drun := (drun msg_at dcap).
+
+  Definition dinv (s : dst) : Prop :=
+    chain 0 (map fst (dout s ++ dq s)) (dnext s) /\ Forall (part_ok msg_at) (dout s ++ dq s).
+
+  Lemma dinv_step s e : dinv s -> dinv (dstep s e).
+  Proof.
+    unfold dinv. intros [Hc Hp]. destruct e as [|n| |]; cbn [Ingest.dstep].
+    - destruct (length (dq s) <? dcap); cbn [dout dq dnext].
+      + split.
+        * rewrite app_assoc, map_app. cbn [map fst]. apply chain_snoc. exact Hc.
+        * rewrite app_assoc. apply Forall_app. split; [exact Hp|constructor; [reflexivity|constructor]].
+      + split; [eapply chain_mono; [exact Hc|lia]|exact Hp].
+    - cbn [dout dq dnext]. split; [eapply chain_mono; [exact Hc|lia]|exact Hp].
+    - destruct (dq s) as [|p r] eqn:E.
+      + rewrite E. split; assumption.
+      + cbn [dout dq dnext]. rewrite <- app_assoc. cbn [app]. split; assumption.
+    - destruct (dq s) as [|p r] eqn:E.
+      + rewrite E. split; assumption.
+      + cbn [dout dq dnext]. split.
+        * rewrite map_app in *. cbn [map] in Hc. eapply chain_remove. exact Hc.
+        * apply Forall_app in Hp. destruct Hp as [H1 H2]. inversion H2; subst. apply Forall_app. split; assumption.
+  Qed.
+
+  Lemma dinv_run evs : dinv (drun evs).
+  Proof.
+    induction evs as [|e evs IH] using rev_ind.
+    - split; cbn; [apply le_n|constructor].
+    - unfold Ingest.drun. rewrite fold_left_app. cbn [fold_left]. apply dinv_step. exact IH.
+  Qed.
+
+  (* whatever the destination does - lag, end the session, come back - what it receives over all its
+     connections is a sub-sequence of the hub messages of the stream, in their order: unmodified, strictly
+     forward, none twice.  (Messages may be missing: dropped while the queue was full, or lost at a cut.) *)
+  Lemma destination_receives_in_order evs :
+    let s := drun evs in
+    (exists hi, chain 0 (map fst (dout s)) hi /\ hi <= dnext s) /\
+    Forall (fun p => snd p = msg_at (fst p)) (dout s).
+  Proof.
+    intros s. destruct (dinv_run evs) as [Hc Hp]. fold s in Hc, Hp. split.
+    - rewrite map_app in Hc. apply chain_app_l in Hc. exact Hc.
+    - apply Forall_app in Hp. apply Hp.
+  Qed.
+End DestOutProofs.
